@@ -207,21 +207,17 @@ def hLoop (env : NsEnv) (cfg : Cfg) (native : Bool) : HState → List Ev → Lis
       let (c2, x) := hLoop env cfg native s1 r
       (c ++ c2, x)
 
+/-- `if self.config.<location>: self.add_attribute(qname, location, root=True)` -/
+def rootAttr1 (env : NsEnv) (loc : Option Str) (qn : Str) (s : HState) : Except Err HState :=
+  match loc with
+  | some l => if l.isEmpty then .ok s else (hAddAttribute env qn (.atom (.str l)) true s).2
+  | none => .ok s
+
 /-- the two `add_attribute(..., root=True)` calls at the top of `write` -/
 def rootAttrs (env : NsEnv) (cfg : Cfg) (s : HState) : Except Err HState :=
-  let r1 : Except Err HState := match cfg.schemaLocation with
-    | some loc =>
-      if loc.isEmpty then .ok s
-      else (hAddAttribute env env.xsiSchemaLocation (.atom (.str loc)) true s).2
-    | none => .ok s
-  match r1 with
+  match rootAttr1 env cfg.schemaLocation env.xsiSchemaLocation s with
   | .error e => .error e
-  | .ok s1 =>
-    match cfg.noNsSchemaLocation with
-    | some loc =>
-      if loc.isEmpty then .ok s1
-      else (hAddAttribute env env.xsiNoNsSchemaLocation (.atom (.str loc)) true s1).2
-    | none => .ok s1
+  | .ok s1 => rootAttr1 env cfg.noNsSchemaLocation env.xsiNoNsSchemaLocation s1
 
 /-- `EventHandler.write(events)` after `XmlSerializer.write` cleaned the user
 map: the SAX calls the content handler receives and the exception raised, if any -/
